@@ -56,3 +56,24 @@ Print Assumptions C15_auto_ids_convert_total.
 Example C15_auto_ids_demo : exists t, ParseTreeA [35;32;97;10;35;32;97;10;35;32;97;45;49;10]%N = Ok t /\
   heading_ids t = [Some (AVBytes [97]); Some (AVBytes [97;45;49]); Some (AVBytes [97;45;49;45;49])]%N.
 Proof. eexists. split; vm_compute; reflexivity. Qed.
+
+(* ---------------- the heading options inside the block driver (model/HeadingOpts.v: the model
+   of parser.WithAttribute() and parser.WithAutoHeadingID() as goldmark implements them, in the
+   heading parsers' Open and Close; compared with goldmark for the four option sets, case kinds
+   ParseTreeH / ConvertH).  With automatic ids alone the driver-internal assignment - Generate in
+   Close, in closing order - yields exactly the tree of the pass of model/HeadingIds.v, for EVERY
+   source, so the theorems above (ids present, non-empty, pairwise distinct; tree well formed;
+   conversion total) are theorems about it; with both options off it is the default parser. *)
+Require Import GM.model.HeadingOpts GM.model.HeadingOptsI GM.proofs.HeadingOptsEq.
+Theorem C15_driver_ids_equal_pass : forall src, bytes_ok src -> ParseTreeH h_ids src = ParseTreeA src.
+Proof. exact heading_opts_ids_is_pass. Qed.
+Print Assumptions C15_driver_ids_equal_pass.
+Theorem C15_no_heading_option_is_default : forall src, ParseTreeH h_none src = ParseTree src.
+Proof. exact heading_opts_none_is_default. Qed.
+Print Assumptions C15_no_heading_option_is_default.
+Require Import GM.proofs.HeadingOptsFinal.
+Theorem C15_driver_ids_present_nonempty_distinct : forall src t, bytes_ok src -> ParseTreeH h_ids src = Ok t ->
+  exists rs, heading_ids t = map (fun r => Some (AVBytes r)) rs /\ NoDup rs /\
+             Forall (fun r => r <> [] /\ forallb id_char r = true) rs.
+Proof. exact ParseTreeH_ids_ok. Qed.
+Print Assumptions C15_driver_ids_present_nonempty_distinct.
